@@ -60,6 +60,9 @@ def _digitize(case):
         # float32-exact non-uniform edges, negative and fractional
         base = numpy.array([-8.5, -3.25, -3.0, -0.5, 0.0, 0.125, 1.0, 1.5, 4.0, 16.0, 16.5, 1024.0])
         edges = [base[:L], base[-L:], base[::2][:max(1, L // 2)]]
+        # edges float32 cannot represent (tenths, thirds): the queries below are the float32 neighbours of each edge, which lie strictly
+        # between the edge and its float32 rounding
+        edges += [0.1 * numpy.arange(1, L + 1), numpy.arange(-L, L + 1, 2)[:L] / 3.0]
         xs = None
     # container / dtype alphabet of `bins` (the statement is about the values of the edges): every NumPy real dtype able to
     # hold the edges, a list, a tuple, and non-contiguous views; plus integer edges spanning more than half the dtype's range
